@@ -6,6 +6,7 @@ let () =
   | [ _; "checksum"; path ] -> Drv_checksum.run path
   | [ _; "path"; path ] -> Drv_path.run path
   | [ _; "udp"; path ] -> Drv_udp.run path
+  | [ _; "fsmodel"; path ] -> Drv_fsmodel.run path
   | _ ->
       prerr_endline "usage: driver <component> <ops>";
       exit 2
